@@ -118,7 +118,9 @@ class Data(object):
             for i in range(0, len(lat)):
                 currLat = float(lat[i])
                 currLon = float(lon[i])
-                if currLat >= min_lat and currLat <= max_lat and currLon >= min_lon and currLon <= max_lon:
+                # A range only constrains when it is given (-latrange alone must not drop longitudes outside -180..180)
+                if (lat_range is None or (currLat >= min_lat and currLat <= max_lat)) and \
+                   (lon_range is None or (currLon >= min_lon and currLon <= max_lon)):
                     latlon_locations.append(loc_id[i])
             use_locations = list()
             if locations is not None:
